@@ -108,28 +108,46 @@ func hopByHopHeaderRemove(outreq, req *bfe_http.Request) {
 	// is modifying the same underlying map from req (shallow
 	// copied above) so we only copy it if necessary.
 	copiedHeaders := false
-	for _, h := range bfe_basic.HopHeaders {
-		hv := outreq.Header.Get(h)
-		if hv == "" {
-			continue
+	del := func(h string) {
+		if _, ok := outreq.Header[bfe_http.CanonicalHeaderKey(h)]; !ok {
+			return
 		}
-
-		if h == "Te" && hv == "trailers" {
-			// Issue 21096: tell backend applications that
-			// care about trailer support that we support
-			// trailers. (We do, but we don't go out of
-			// our way to advertise that unless the
-			// incoming client request thought it was
-			// worth mentioning)
-			continue
-		}
-
 		if !copiedHeaders {
 			outreq.Header = make(bfe_http.Header, len(req.Header))
 			bfe_http.CopyHeader(outreq.Header, req.Header)
 			copiedHeaders = true
 		}
 		outreq.Header.Del(h)
+	}
+
+	// Issue 21096: tell backend applications that care about trailer
+	// support that we support trailers. (We do, but we don't go out of
+	// our way to advertise that unless the incoming client request
+	// thought it was worth mentioning)
+	teTrailers := false
+	for _, v := range req.Header["Te"] {
+		for _, f := range strings.Split(v, ",") {
+			if strings.EqualFold(strings.TrimSpace(f), "trailers") {
+				teTrailers = true
+			}
+		}
+	}
+
+	// Remove the headers nominated by the Connection header (RFC 7230, section 6.1).
+	for _, v := range req.Header["Connection"] {
+		for _, f := range strings.Split(v, ",") {
+			if f = strings.TrimSpace(f); f != "" {
+				del(f)
+			}
+		}
+	}
+
+	for _, h := range bfe_basic.HopHeaders {
+		del(h)
+	}
+
+	if teTrailers {
+		outreq.Header.Set("Te", "trailers")
 	}
 }
 
